@@ -203,6 +203,10 @@ func (m *monitor) onAck(ids []string) {
 	m.stat["batches_acked"]++
 	for _, id := range ids {
 		if r := m.byID[id]; r != nil {
+			if r.acked {
+				m.stat["events_acked_again"]++ // a record delivered twice by the client
+				continue
+			}
 			r.acked = true
 			m.stat["events_acked"]++
 			m.markFinished(r)
